@@ -2,7 +2,9 @@
     Only theorem statements closed by [exact]; proofs in Proofs/C06Justice.v (and
     Proofs/C05Shachain.v for the secret store); model in Model/Justice.v. *)
 Require Import LdkV.Prim.U64 LdkV.Model.Shachain LdkV.Model.Justice LdkV.Proofs.C06Justice
-  LdkV.Gen.Consts LdkV.Gen.Package LdkV.Proofs.C06Fee LdkV.Crypto.Sha256.
+  LdkV.Gen.Consts LdkV.Gen.Package LdkV.Proofs.C06Fee LdkV.Crypto.Sha256 LdkV.Gen.C06Pins.
+(* (not imported: their names -- tx, step, run, filter_block -- would shadow those of Model/Justice.v) *)
+Require LdkV.Model.ChainView LdkV.Proofs.C11 LdkV.Proofs.C06Reorg.
 Open Scope Z_scope.
 
 (** For EVERY hash function, seed, assignment of commitments (any HTLC lists, dust or not, both
@@ -180,3 +182,56 @@ Proof. vm_compute. reflexivity. Qed.
 Example C06_example_spike :
   feerate_bump 1000 1000000 546 253 FeerateStrategy_ForceBump 5060 = Some (5060, 5060).
 Proof. vm_compute. reflexivity. Qed.
+
+(** * Reorganisations: what the monitor awaits and what it has concluded depends on the FINAL chain only
+
+    Model: Model/ChainView.v (C11's transliteration of [transactions_confirmed] / [block_confirmed] /
+    [blocks_disconnected]; validated against real monitors by C11's check and, for justice claims, by
+    the reorg scenarios of h_justice). For EVERY history of block connections and disconnections -- a
+    disconnection names any block of the current chain below the tip as the fork point (the last block
+    KEPT), as long as it is fewer than ANTI_REORG_DELAY below the highest tip seen so far --, that ends
+    at its highest tip: the awaiting-threshold-confirmation table, the set of finished transactions
+    and the set of conclusions drawn (MaturingOutput -> SpendableOutputs, HTLC resolutions, ...) are
+    those of the straight-line delivery of the final chain. In particular the entry of a justice
+    transaction sitting IN the fork-point block survives the disconnection and matures exactly once. *)
+Theorem C06_reorg_history_is_straight_line : forall h0 hash0 hs,
+  let st0 := C11.fresh h0 hash0 in
+  let final := C06Reorg.final_stack [] hs in
+  C06Reorg.hist_ok [] st0 h0 hs ->
+  ChainView.best_h (ChainView.run st0 (map C06Reorg.hop_op hs)) = C06Reorg.final_max h0 hs ->
+  C11.view_eq (ChainView.run st0 (map C06Reorg.hop_op hs)) (ChainView.run st0 (map ChainView.BC (rev final))).
+Proof. exact C06Reorg.reorg_history_is_straight_line. Qed.
+
+(** the boundary case by itself: [blocks_disconnected(f)] keeps every entry recorded at the height of [f] *)
+Theorem C06_fork_point_entry_survives : forall st f e,
+  In e (ChainView.awaiting st) -> ChainView.e_height e = ChainView.b_height f ->
+  In e (ChainView.awaiting (ChainView.step st (ChainView.BD f))).
+Proof. exact C06Reorg.fork_point_entry_survives. Qed.
+
+(** the comparisons behind [BD], the reorg branch of [BB], [TU] and OnchainTxHandler's own table,
+    re-read from channelmonitor.rs / onchaintx.rs on every run *)
+Theorem C06_reorg_source_pins :
+  monitor_blocks_disconnected_retain = "entry.height <= new_height"%string /\
+  monitor_best_block_reorg_retain = "entry.height <= height"%string /\
+  monitor_transaction_unconfirmed_drop = "entry.height >= removed_height"%string /\
+  onchaintx_blocks_disconnected_drop = "entry.height > new_best_height"%string.
+Proof. exact C06Reorg.reorg_source_pins. Qed.
+
+(** non-vacuity: a justice transaction (id 7, one MaturingOutput needing ANTI_REORG_DELAY = 6
+    confirmations) confirms at height 101; two more blocks; the two blocks above it are reorganised out
+    with the fork point ON its block; a different branch grows to 106: the output is concluded exactly
+    once, at 106, as on the straight line *)
+Definition ex_jtx := ChainView.mkTx 7 [(1, 6)].
+Definition ex_hist :=
+  [C06Reorg.HC (ChainView.mkBlk 1101 101 [ex_jtx]); C06Reorg.HC (ChainView.mkBlk 1102 102 []);
+   C06Reorg.HC (ChainView.mkBlk 1103 103 []);
+   C06Reorg.HD (ChainView.mkBlk 1101 101 [ex_jtx]);
+   C06Reorg.HC (ChainView.mkBlk 2102 102 []); C06Reorg.HC (ChainView.mkBlk 2103 103 []);
+   C06Reorg.HC (ChainView.mkBlk 2104 104 []); C06Reorg.HC (ChainView.mkBlk 2105 105 []);
+   C06Reorg.HC (ChainView.mkBlk 2106 106 [])].
+Example C06_example_reorg_on_fork_point :
+  ChainView.emitted (ChainView.run (C11.fresh 100 1100) (map C06Reorg.hop_op ex_hist)) = [ChainView.mkEm 7 1 101 106] /\
+  ChainView.awaiting (ChainView.run (C11.fresh 100 1100) (map C06Reorg.hop_op ex_hist)) = [] /\
+  ChainView.emitted (ChainView.run (C11.fresh 100 1100) (map ChainView.BC (rev (C06Reorg.final_stack [] ex_hist)))) =
+    [ChainView.mkEm 7 1 101 106].
+Proof. vm_compute. repeat split; reflexivity. Qed.
